@@ -38,7 +38,8 @@ LINES = ["greet bob", "greet", "num 5", "num abc", "num 1 2", "help", "help gree
          "pinned a b", "pinned c", 'greet "bob al"', "greet bob al"]
 # quick: second and third run from this sub-menu (every kind of line once)
 SHORT = [0, 3, 4, 6, 7, 8, 10, 13, 14, 18, 20, 21, 22, 23, 24, 25, 26, 27, 28, 29]
-BOUNDS = {"quick": "3 runs on one application, first line from a 30-line menu, the others from a 20-line sub-menu (quick) / the full menu (thorough); 4 table style kinds x 5 customisations x creation orders; double rendering of tables, help pages and error traces",
+THIRD = [0, 4, 6, 14, 20, 22, 23, 25, 27, 29]      # quick: third run from the lines that observe carried state
+BOUNDS = {"quick": "3 runs on one application, first and second line from a 20-line sub-menu of the 30-line menu, third from 10 observing lines (quick) / the full menu (thorough); 4 table style kinds x 5 customisations x creation orders; double rendering of tables, help pages and error traces",
           "thorough": "additionally 4 runs whose first line is an invalid value / failing help / unknown option / --ansi help"}
 OUTSIDE = ["sequences of 5-6 runs", "re-using one RawArgs OBJECT for two runs (each run gets a fresh StringArgs/ArgvArgs of its line): HelpResolver.resolve removes the leading 'help' token from the raw args it is given - observed, but the statement quantifies over command lines",
            "process-wide state outside clikit (pastel, crashtest)"]
@@ -141,7 +142,7 @@ def sequence(k1: int, k2: int, k3: int, k4: int) -> bool:
     pre: 0 <= k1 < len(LINES) and 0 <= k2 < len(LINES) and 0 <= k3 < len(LINES) and 0 <= k4 < len(LINES)
     pre: k1 == PART["k1"] and (PART.get("k2") is None or k2 == PART["k2"])
     pre: PART["n"] > 3 or k4 == 0
-    pre: not PART.get("short") or (k2 in SHORT and k3 in SHORT)
+    pre: not PART.get("short") or (k2 in SHORT and k3 in THIRD)
     pre: PART.get("half") is None or (k2 in SHORT[: len(SHORT) // 2]) == (PART["half"] == 0)
     post: _
     """
@@ -289,7 +290,7 @@ def conditions(tier):
     quick = tier == "quick"
     t = 120 if quick else 1500
     conds = []
-    plan = [(k1, None, 3) for k1 in range(len(LINES))]
+    plan = [(k1, None, 3) for k1 in (SHORT if quick else range(len(LINES)))]
     halves = [0, 1] if quick else [None]
     if not quick:
         plan += [(k1, k2, 4) for k1 in (3, 8, 10, 13) for k2 in range(len(LINES))]       # 4 runs after an invalid line / failing help / unknown option / --ansi help
